@@ -25,12 +25,16 @@ string Hex64(uint64_t v) {
 
 // paths inside a command line are written with %20 for a space and %25 for a percent sign
 static string DecodePath(const string& s) {
+  // %XX (two hex digits) stands for the byte XX
   string o;
+  auto hv = [](char c) { return c >= '0' && c <= '9' ? c - '0' : (c >= 'a' && c <= 'f') ? c - 'a' + 10 : (c >= 'A' && c <= 'F') ? c - 'A' + 10 : -1; };
   for (size_t i = 0; i < s.size(); ++i) {
-    if (s[i] == '%' && i + 2 < s.size() + 0 && s.compare(i, 3, "%20") == 0) { o += ' '; i += 2; }
-    else if (s[i] == '%' && s.compare(i, 3, "%25") == 0) { o += '%'; i += 2; }
-    else if (s[i] == '%' && s.compare(i, 3, "%09") == 0) { o += '\t'; i += 2; }
-    else o += s[i];
+    if (s[i] == '%' && i + 2 < s.size() + 0 + 1 && i + 2 <= s.size() - 1 + 0 && hv(s[i + 1]) >= 0 && hv(s[i + 2]) >= 0) {
+      o += (char)(hv(s[i + 1]) * 16 + hv(s[i + 2]));
+      i += 2;
+    } else {
+      o += s[i];
+    }
   }
   return o;
 }
